@@ -44,6 +44,8 @@ def dec (t : String) : Option Str :=
 
 def decD (t : String) : Str := (dec t).getD []
 
+def octal (t : String) : Nat := t.toList.foldl (fun n c => n * 8 + (c.toNat - 48)) 0
+
 def fnv (s : Str) : Nat :=
   s.foldl (fun h b => ((h ^^^ b.toNat) * 1099511628211) % 18446744073709551616) 14695981039346656037
 
@@ -256,6 +258,7 @@ def runCmd (w : World) (tok : Array String) : World × List String :=
     | "owner" => ({ w with g := { w.g with ownerSet := true, owner := (t 2).toNat! } }, [])
     | "group" => ({ w with g := { w.g with groupSet := true, group := (t 2).toNat! } }, [])
     | "nosymlink" => ({ w with g := { w.g with allowSymlinks := (t 2).toNat! == 0 } }, [])
+    | "perms" => ({ w with g := { w.g with permsSet := true, permsFile := octal (t 2), permsDir := octal (t 3) } }, [])
     | "reset" => ({ w with g := resetSecurity w.g }, [])
     | "confdirs" => ({ w with g := { w.g with confDirs := (tok.toList.drop 2).map decD } }, ["confdirs E0"])
     | _ => (w, ["?"])
